@@ -201,7 +201,7 @@ func C01(tier rt.Tier) int {
 	}
 	per := 25 * time.Second
 	if tier == rt.Thorough {
-		per = 3 * time.Minute
+		per = 2 * time.Minute
 	}
 	for _, a := range runs {
 		runAlphabet(rep, a, time.Now().Add(per), nil)
